@@ -25,6 +25,12 @@ CHECKS = {
  "C20": dict(cat="model_checking", engine="C", technique=ENGINE_C + "; plus bounded-exhaustive differential enumeration of sequential call histories against functools.lru_cache",
    text="Reachable quiescent states of the real lru_cache wrapper (maxsize None/1/2, ttl, 2-3 keys, up to 3 callers with invocations held in flight by gates) under call / complete / fail / cancel / clock events and all in-cycle event pairs; oracle: right value, single flight, no foreign exception, no stale or expired hit, nobody blocked without an equal-key invocation in flight, currsize and probed retention <= maxsize; and every sequential call sequence up to length 5-7 over 2-4 keys (typed on/off, failing key) must hit/miss exactly like functools.lru_cache.",
    note="Trusted: VLoop batching model; functools.lru_cache as sequential reference (mixed int/float keys only compared with typed=True because of a CPython fast-path quirk); BFS depth-capped where stated."),
+ "C01": dict(cat="exploration", engine="A", technique=ENGINE_A,
+   text="~1300 generated task-tree programs (children from a 12-behaviour menu, nested groups, children spawning children, spawn after cancel / from behind a shield / from an outside callback) x every placement of the environment actions (set gate, cancel group / enclosing scope / task handle, external start_soon) at every scheduling point x {stock, eager} x hash salts; oracle on the event log: every member has ended before the block ends and never runs afterwards, handle status/value/exception equal the recorded outcome.",
+   note="Trusted: VLoop batching model (stock + eager factory); uvloop not explored; programs are bounded (<= 3 children, nesting 2)."),
+ "C02": dict(cat="exploration", engine="A", technique=ENGINE_A,
+   text="Task-tree programs in which body/children raise (Exception and BaseException subclasses; before, during, after cancellation; from cleanup), nested groups, start()-children failing while unwinding after their starter was cancelled; all placements of environment actions; oracle: flattened leaves of the raised group == multiset of non-cancellation exceptions that ended body and members, no cancellation leaves, nothing raised when nothing failed, remaining members interrupted at their checkpoints.",
+   note="Trusted: VLoop batching model; scope reference semantics (mc/refsem.py) for the 'remaining tasks are cancelled' clause."),
 }
 
 def main():
